@@ -28,6 +28,7 @@ pub struct RewardMonitor {
     pub lower_bound_skipped_overflow: u32,
     pub collects: u32,
     pub collects_partial: u32,
+    pub collects_with_transfer_fee: u32,
     pub rate_changes_ok: u32,
     pub rate_changes_rejected: u32,
     pub rate_boundary_accepts: u32,
@@ -286,8 +287,13 @@ impl RewardMonitor {
                 let want = a.reward_owed[i].min(vault0);
                 let dest = h.w.user_token_existing(r.user.unwrap(), &rw.mint.key);
                 let got = post.balances[&dest] - pre.balances[&dest];
-                if got != want || post.balances[&rw.vault] != vault0 - want {
-                    return Err(format!("collect_reward paid {got}, expected min(owed {}, vault {vault0}) = {want}", a.reward_owed[i]));
+                // a Token-2022 reward mint may withhold a transfer fee from what the vault pays out
+                let fee = super::c16::fee_of(rw.mint.transfer_fee, want);
+                if got != want - fee || post.balances[&rw.vault] != vault0 - want {
+                    return Err(format!("collect_reward paid {got} to the owner and {} out of the vault, expected min(owed {}, vault {vault0}) = {want} (transfer fee {fee})", vault0 - post.balances[&rw.vault], a.reward_owed[i]));
+                }
+                if fee > 0 {
+                    self.collects_with_transfer_fee += 1;
                 }
                 if bf.reward_owed[i] != a.reward_owed[i] - want {
                     return Err(format!("collect_reward left {} owed, expected {}", bf.reward_owed[i], a.reward_owed[i] - want));
@@ -370,6 +376,7 @@ pub fn check_history(case: &HistoryCase, l: &mut Local) -> Result<(), String> {
     l.count_n("lower_bound_skipped_position_overflow", m.lower_bound_skipped_overflow as u64);
     l.count_n("reward_collections", m.collects as u64);
     l.count_n("reward_collections_partial_vault", m.collects_partial as u64);
+    l.count_n("reward_collections_with_transfer_fee", m.collects_with_transfer_fee as u64);
     l.count_n("rate_changes_accepted", m.rate_changes_ok as u64);
     l.count_n("rate_changes_rejected", m.rate_changes_rejected as u64);
     l.count_n("rate_at_vault_boundary_accepted", m.rate_boundary_accepts as u64);
